@@ -12,10 +12,19 @@ class NativeCheck:
         "C18": dict(mod="checks.hybrid_native", fn="run_c18", vc=None, level="exploration",
                     text="C18: run-time contract DressInv after every step of operation histories on generated hybrid classes (bounded; hybrid_class.py is outside "
                          "the python subset of the verifier)."),
-        "C19": dict(mod="checks.hybrid_native", fn="run_c19", vc=None, level="exploration",
-                    text="C19: from_dict(to_dict(h)) == h with default elision; T(x._to_json()) == x for reference-free structs and 1-d arrays (bounded)."),
-        "C20": dict(mod="checks.pickle_native", fn="run", vc=None, level="exploration",
-                    text="C20: pickle round trips of importable struct/array/hybrid objects, single and in groups sharing a buffer (bounded)."),
+        "C19": dict(mod="checks.hybrid_native", fn="run_c19", vc="types_vc", level="other",
+                    text="C19: Struct._to_json under contract (classes of <= 3 fields, abstract field types): a dict with exactly the field names in declaration "
+                         "order, each value read through the field's type at its documented address; with the writer contract for dict values (C01/C05 groups) the "
+                         "struct constructor applied to it reproduces every field.  Array._to_json (generator iteration) and HybridClass.to_dict/from_dict "
+                         "(descriptors, computed attribute names) are outside the subset: from_dict(to_dict(h)) == h with default elision and T(x._to_json()) == x "
+                         "for reference-free structs and 1-d arrays are decided by the bounded part."),
+        "C20": dict(mod="checks.pickle_native", fn="run", vc="types_vc", level="other",
+                    text="C20: Struct.__getstate__/__setstate__ under contract (classes of <= 3 fields): the state is exactly (buffer, offset); __setstate__ on a bare "
+                         "instance gives a handle with HandleInv (size and offsets re-read from the buffer words, every field read through its type at the documented "
+                         "address), i.e. the unpickled object is a view rebuilt from buffer and offset (C06).  Assumed: AX-pickle (loads(dumps(x)) = __setstate__ on "
+                         "object.__new__(type(x)) with a copy of the state in which each buffer object is copied once per dump with equal bytes, capacity and free "
+                         "list).  Arrays, hybrid classes, sharing within one dump and the buffer staying a working allocator are decided by the bounded part: pickle "
+                         "round trips of importable struct/array/hybrid objects, single and in groups sharing a buffer."),
     }
 
     def __init__(self, prop):
@@ -28,13 +37,17 @@ class NativeCheck:
         self.TRUSTED = ["the native harness " + sp["mod"]] + (["cffi / numpy axioms AX-ffi-cast, AX-ffi-from_buffer, AX-np-first, AX-np-ctypes, AX-storage-slice "
                                                               "(checks/kernels_vc.py)"] if prop == "C17" else [])
         self.ASSUMPTIONS = ["bounded run-time contract check on generated classes/values; not a proof",
-                            "hybrid_class.py (descriptors, computed attribute names, __dict__.update) and pickle's object graph copying are outside the deductive subset"]
+                            "hybrid_class.py (descriptors, computed attribute names) and pickle's object graph copying are outside the deductive subset"]
+        if prop in ("C19", "C20"):
+            self.TRUSTED.append("AX-pickle (C20): pickle calls __getstate__/__setstate__ as documented and copies each buffer object once per dump; "
+                                "TypeContract of the abstract field types (proved per type constructor under C01/C03/C05)")
 
     def targets(self):
         if self.sp["vc"]:
             import importlib
 
-            return importlib.import_module("checks." + self.sp["vc"]).targets()
+            mod = importlib.import_module("checks." + self.sp["vc"])
+            return mod.targets(self.PROP) if self.sp["vc"] == "types_vc" else mod.targets()
         return []
 
     def bounded(self, tier, seed, focus):
